@@ -1872,6 +1872,19 @@ class _Desugar(ast.NodeTransformer):
                     t.func.id == 'isinstance' and len(t.args) == 2 and \
                     isinstance(t.args[0], ast.Name) and \
                     t.args[0].id == h.name and \
+                    ast.dump(t.args[1]) == ast.dump(h.type):
+                # except A as e: if isinstance(e, A): S1 else: S2  is  S1
+                out.append(ast.copy_location(ast.ExceptHandler(
+                    type=h.type, name=h.name,
+                    body=prefix + body[0].body), h))
+                self.count += 1
+                continue
+            if isinstance(h.type, (ast.Name, ast.Attribute)) and h.name and \
+                    isinstance(t, ast.Call) and \
+                    isinstance(t.func, ast.Name) and \
+                    t.func.id == 'isinstance' and len(t.args) == 2 and \
+                    isinstance(t.args[0], ast.Name) and \
+                    t.args[0].id == h.name and \
                     isinstance(t.args[1], (ast.Name, ast.Attribute)) and \
                     ast.dump(t.args[1]) != ast.dump(h.type):
                 # except X as e: if isinstance(e, A): S1 else: S2
